@@ -81,7 +81,13 @@ fn build_case(n: usize, adj: &dyn Fn(usize, usize) -> bool, t: &mut Tape) -> Cas
             (1, _) => "lib/",
             _ => *t.pick_ref(&["", "lib/", "lib/sub/", "other/"]),
         };
-        files.push(if i == 0 { "main.oal".to_owned() } else { format!("{dir}m{i}.oal") });
+        // One name in four has a blank or a non-ASCII letter (percent-encoded in the locator).
+        let stem = match t.choose(8) {
+            0 => format!("m {i}"),
+            1 => format!("m\u{e9}{i}"),
+            _ => format!("m{i}"),
+        };
+        files.push(if i == 0 { "main.oal".to_owned() } else { format!("{dir}{stem}.oal") });
     }
     let mut uses: Vec<Vec<(Option<usize>, String, Option<String>)>> = Vec::new();
     for i in 0..n {
@@ -461,6 +467,40 @@ impl Property for C10 {
                     format!("the document differs after reversing the use statements and respelling the paths:\n{:?}\nvs\n{:?}", doc, doc2),
                 ));
             }
+        }
+        // One case in a hundred also goes through the real command-line compiler on real files (the
+        // locator-to-path mapping and the file system loader are not part of the in-memory run).
+        if r.failure.is_none() && tape.chance(1, 100) {
+            thread_local! {
+                static DIR: std::cell::RefCell<Option<crate::lspc::Scratch>> = const { std::cell::RefCell::new(None) };
+            }
+            DIR.with(|d| {
+                let mut d = d.borrow_mut();
+                let dir = d.get_or_insert_with(|| crate::lspc::Scratch::new("c10"));
+                let _ = std::fs::remove_dir_all(&dir.path);
+                std::fs::create_dir_all(&dir.path).ok();
+                for (name, text) in &sources.files {
+                    dir.write(name, text);
+                }
+                let res = crate::lspc::run_cli(&dir.path, &["-m", "main.oal", "-t", "out.yaml"]);
+                r.evaluations += 1;
+                r.label("through-cli");
+                let faults = a.has_cycle || !a.missing.is_empty();
+                let written = dir.path.join("out.yaml").exists();
+                let ok = if faults { res.code == Some(1) && !written } else { res.code == Some(0) && written };
+                if !ok {
+                    r.fail(Failure::new(
+                        "c10:cli-verdict",
+                        format!(
+                            "oal-cli on the same files (graph {}) exits with {} and the target is {}; stderr: {}",
+                            if faults { "with a cycle or a missing import" } else { "without faults" },
+                            res.status,
+                            if written { "written" } else { "not written" },
+                            res.stderr.chars().take(600).collect::<String>()
+                        ),
+                    ));
+                }
+            });
         }
         let subdir = case.files.iter().any(|f| f.contains('/'));
         let dup = case.uses.iter().any(|us| {
